@@ -22,7 +22,7 @@ RULE = ("each case is a seeded batch of quaternions (and angular velocities) run
 ASSUMPTIONS = ["float mode: |P| in [1e-150, 1e150] so that P.P neither under- nor overflows (float64 limit of the stated domain); the derivative beyond [1e-100, 1e100] is judged by its degree -1 homogeneity against the unit quaternion",
                "float tolerance 64*eps*(1+component dynamic range effect) on orthonormality etc.; derivative by complex step",
                "exact mode: module constants eye3 / ax2skew_a re-bound to integer-valued object arrays by the harness so that no float literal enters; helpers that multiply by a float literal (skew2ax) are replaced by the harness' own extraction"]
-REQUIRED_MONITORS = ["float.orthonormal", "float.scale", "float.homomorphism", "float.TTinv", "float.spin", "float.derivative", "float.representation",
+REQUIRED_MONITORS = ["float.orthonormal", "float.scale", "float.homomorphism", "float.TTinv", "float.spin", "float.derivative", "float.representation", "float.retention", "float.inplace_arguments",
                      "exact.orthonormal", "exact.scale", "exact.homomorphism", "exact.TTinv", "exact.spin", "exact.derivative", "algebra"]
 META = {
     "level_text": "Exploration: the real kernel functions are executed on seeded hostile float inputs and, in exact mode, on Fraction-valued object arrays where every identity is decided with == (no tolerance); derivatives are obtained by executing the real map on dual numbers over Fraction. Held on the samples generated; not a symbolic proof.",
@@ -328,6 +328,16 @@ def run_float(ctx, n):
             calls = [(name, getattr(R, name), (Pm,), {"normalize": bool(nz_)}) for name in ("Exp_SO3_quat", "Exp_SO3_quat_P", "T_SO3_quat", "T_SO3_inv_quat") for nz_ in (True, False)]
             calls.append(("quatprod", R.quatprod, (Pm, Qm), {}))
             representation_check(ctx, calls, mon="float.representation")
+            # products / matrices kept side by side, and one argument array refilled in place between calls
+            from vlib.oracles import retention_check, inplace_check
+            Qs = [rng.normal(size=4) * loguniform(rng, 1e-3, 1e3) for _ in range(4)]
+            th = [("quatprod", {"P": a_, "Q": b_}, (lambda a_=a_, b_=b_: R.quatprod(a_.copy(), b_.copy()))) for a_ in Qs for b_ in Qs[:2]]
+            for name in ("Exp_SO3_quat", "Exp_SO3_quat_P", "T_SO3_quat", "T_SO3_inv_quat", "T_SO3_quat_P", "T_SO3_inv_quat_P"):
+                th += [(name, {"P": a_, "normalize": nz_}, (lambda f_=getattr(R, name), a_=a_, nz_=nz_: f_(a_.copy(), normalize=nz_))) for a_ in Qs for nz_ in (True, False)]
+            retention_check(ctx, th, mon="float.retention")
+            ip = [("quatprod", R.quatprod, [(a_, b_) for a_ in Qs for b_ in Qs[:2]][:6], {})]
+            ip += [(name, getattr(R, name), [(a_,) for a_ in Qs], {"normalize": nz_}) for name in ("Exp_SO3_quat", "Exp_SO3_quat_P", "T_SO3_quat", "T_SO3_inv_quat") for nz_ in (True, False)]
+            inplace_check(ctx, ip, mon="float.inplace_arguments")
         # spin: P_dot = T_inv(P) w ; body spin of Exp(P(t)) must be w
         w = rng.normal(size=3) * loguniform(rng, 1e-6, 1e6)
         Pdot = R.T_SO3_inv_quat(Pm) @ w
